@@ -281,3 +281,22 @@ where
         })
     }
 }
+
+/// Verification hooks (add-only, compiled only with `--cfg remoc_verif`).
+#[cfg(remoc_verif)]
+#[allow(missing_docs, dead_code, clippy::all)]
+pub mod verif_hooks {
+    use super::*;
+
+    /// A sized sender whose channel is already closed (`bin_sender` gone), with the given counters.
+    pub fn sized_sender_from_parts<Codec>(expected: u64, bytes_written: u64) -> Sender<Codec> {
+        Sender {
+            bin_sender: Mutex::new(None),
+            size_mode: Mutex::new(SizeMode::Known(expected)),
+            bytes_written,
+            chunk_size: None,
+            connecting: None,
+            sending: None,
+        }
+    }
+}
